@@ -68,7 +68,8 @@ def build(ob):
         res = []
         for i in range(ob["npts"] if kind != "Empty" else 0):
             x, q2 = 0.1 * (i + 1), 10.0 * (i + 1) + 1 / 3
-            r = EXSResult(x, q2, 0.4 + 0.1 * i, None) if kind == "XS" else ESFResult(x, q2, None)
+            nf = (None, 3, 5, 4)[(i + j) % 4]      # (the number of flavours of a point is part of the content: None or an int)
+            r = EXSResult(x, q2, 0.4 + 0.1 * i, nf) if kind == "XS" else ESFResult(x, q2, nf)
             for m, key in enumerate(ob["keys"]):
                 rng = np.random.default_rng(1000 * j + 10 * i + m)
                 if ob["vcls"] == "special":
